@@ -122,3 +122,19 @@ pub fn c04_edit_top_h2() {
     assert!(s.peek(0).is_empty());
     assert!(s.peek(1).len() == 1 && s.peek(1)[0].solution()[0] == tags[0], "edit of the top leaked into the population below");
 }
+
+/// the stack is a stack of POPULATIONS: an empty population is an entry like any other (height, emptiness and every accessor
+/// speak about populations, not about the individuals in them)
+/// @verif anchor=Populations::is_empty bound="stacks [], [[]] and [[], []]"
+#[cfg_attr(kani, kani::proof)] #[cfg_attr(kani, kani::unwind(4))]
+pub fn c04_empty_populations_count() {
+    let mut s = Populations::<P>::new();
+    assert!(s.is_empty() && s.len() == 0 && s.get_current().is_none() && s.try_peek(0).is_none());
+    s.push(Vec::new());
+    assert!(!s.is_empty() && s.len() == 1, "a stack holding one (empty) population is not empty");
+    assert!(s.get_current().map(|p| p.len()) == Some(0) && s.try_peek(0).map(|p| p.len()) == Some(0) && s.try_peek(1).is_none());
+    s.push(Vec::new());
+    assert!(!s.is_empty() && s.len() == 2);
+    assert!(s.try_pop().map(|p| p.len()) == Some(0) && s.len() == 1 && !s.is_empty());
+    assert!(s.pop().is_empty() && s.is_empty() && s.len() == 0);
+}
